@@ -7,6 +7,8 @@ import (
 	"context"
 	"fmt"
 	"github.com/streamingfast/substreams/pipeline/exec"
+	"github.com/streamingfast/substreams/storage/execout"
+	"google.golang.org/protobuf/proto"
 	"math"
 	"math/big"
 	"os"
@@ -542,8 +544,19 @@ func (e *Env) Step(w []string) (res string) {
 		log := e.lastLog[s] // what the executor wrote for the cached-output file
 		e.hasPend[n] = false
 		t.Reset()
-		if err := t.ApplyOps(log); err != nil {
-			return "err:" + classifyErr(err)
+		// the replay goes through the cached branch of the real exec.RunModule (getCachedOutput -> applyCachedOutput =
+		// ApplyOps -> toModuleOutput -> the bytes handed to downstream modules), not through ApplyOps alone
+		mo, outBytes, _, _, rerr := exec.RunModule(e.Ctx, exec.NewStoreModuleExecutor(
+			exec.NewBaseExecutor(e.Ctx, "mod", 0, nil, false, nil, nil, "mod", nil), t), cachedGetter{log})
+		if rerr != nil {
+			return "err:" + classifyErr(rerr)
+		}
+		if _, full := t.(*store.FullKV); full {
+			// what a downstream module reading this store in deltas mode receives
+			ds := &pbsubstreams.StoreDeltas{}
+			if err := proto.Unmarshal(outBytes, ds); err != nil || mo == nil || e.showDeltas(ds.StoreDeltas) != e.showDeltas(s.GetDeltas()) {
+				e.Fail("C09/replay-output-bytes-differ", fmt.Sprintf("the output RunModule hands downstream after replaying the cached log decodes to %s (err %v), the execution produced %s", e.showDeltas(ds.StoreDeltas), err, e.showDeltas(s.GetDeltas())))
+			}
 		}
 		out := e.showDeltas(t.GetDeltas()) + " " + e.showState(n, t)
 		// C09 oracle on the real code
@@ -633,6 +646,18 @@ func (e *Env) Step(w []string) (res string) {
 		return "ok"
 	}
 	return "bad-step"
+}
+
+// cachedGetter: an execution-output buffer in which the store module's cached output (its operation log) is present
+type cachedGetter struct{ log []byte }
+
+func (cachedGetter) Len() int                   { return 1 }
+func (cachedGetter) Clock() *pbsubstreams.Clock { return &pbsubstreams.Clock{Number: 1, Id: "1a"} }
+func (g cachedGetter) Get(name string) ([]byte, bool, error) {
+	if name == "mod" {
+		return g.log, true, nil
+	}
+	return nil, false, execout.ErrNotFound
 }
 
 // Run executes a whole history line and returns the canonical answer line.
